@@ -4,7 +4,7 @@
 # builders and checks are not disturbed), builds a private copy of the harness against it, runs
 # the quick checks there and prints their verdict lines. Scratch: /tmp/mut-<first check id>/.
 E=$1; F=$2; shift 2
-D=/tmp/mut-$1
+D=${MUTDIR:-/tmp/mut-$1}
 mkdir -p $D/repo $D/harness
 rsync -a --delete --exclude target --exclude .git /repo/ $D/repo/
 rsync -a --exclude target /verif/harness/ $D/harness/
